@@ -117,7 +117,11 @@ def replay_case(arg):
                     pvals.append(0.05 if 'Cov.' in n_ else 0.2 if n_.startswith('Log std') else 0.03 if n_.startswith('Std') else
                                  0.1 if n_.startswith('Log mean') else 0.5 if n_.startswith('Mean') else 0.8)
                 if ncov:
-                    covs = np.round(rng.uniform(0, 1, size=(ns if rng.integers(2) else 1, ncov)), 2)
+                    # (one covariate row for everybody or one per sample; with two covariates always one per sample, all
+                    # values distinct)
+                    covs = np.round(rng.uniform(0, 1, size=(ns if (rng.integers(2) or ncov >= 2) else 1, ncov)), 2)
+                    if ncov >= 2:
+                        covs = np.round(0.1 + 0.1 * np.arange(covs.size).reshape(covs.shape) + 0.01 * covs, 3)
                 df = ppm.sample(pvals, times_in, n_samples=ns, seed=int(rng.integers(100)), include_regimen=rec['regimen'],
                                 covariates=covs)
             elif kind == 'prior':
